@@ -109,7 +109,7 @@ type TxIn struct {
 
 // EvIn is one evidence reaching the builder before it seals the block.
 type EvIn struct {
-	Kind   string `json:"kind"`   // valid badsig badidx onesign unknown cert
+	Kind   string `json:"kind"`   // valid badsig badidx onesign samehash unknown cert
 	Round  uint64 `json:"round"`  // absolute round the evidence talks about
 	Signer int    `json:"signer"` // validator key index
 }
@@ -171,6 +171,7 @@ type LedgerSnap struct {
 type EvObs struct {
 	Type      int    // 1 = known type (doublesignv5), 0 = unknown
 	NSigns    int
+	Differ    bool   // some signature is for a hash different from the first one
 	Round     uint64
 	Verified  bool   // index valid in the look-back set and every signature verifies
 	SignerID  int64  // id of the resolved signer (when verified)
@@ -686,6 +687,9 @@ func (w *World) makeEvidence(e *EvIn) (staking.Evidence, EvObs) {
 	}
 	for k := 0; k < n; k++ {
 		hsh := crypto.Keccak256Hash([]byte{byte(k + 1), byte(e.Round), byte(signer)})
+		if e.Kind == "samehash" { // one vote listed twice: not an offence
+			hsh = crypto.Keccak256Hash([]byte{1, byte(e.Round), byte(signer)})
+		}
 		payload := append(hsh.Bytes(), roundbuf...)
 		sig := sk.Sign(payload).Compress()
 		signs = append(signs, &staking.SignInfo{Hash: hsh, Sign: sig.Bytes()})
@@ -856,6 +860,11 @@ func (w *World) observeEvidences(o *BlockObs, blk *types.Block, pst *state.State
 		var d staking.EvidenceDoubleSignV5
 		if err := rlp.DecodeBytes(e.Data, &d); err == nil {
 			eo.NSigns, eo.Round = len(d.Signs), d.Round
+			for _, sg := range d.Signs {
+				if sg.Hash != d.Signs[0].Hash {
+					eo.Differ = true
+				}
+			}
 			// independent re-verification with the bls package (the oracle's own reading)
 			if vr, err := w.A.bc.LookBackVldReaderForRound(d.Round, d.VoteType == staking.Certificate); err == nil && vr != nil {
 				if sv, ok := vr.GetValidators().GetByIndex(int(d.SignerIdx)); ok {
@@ -1043,7 +1052,8 @@ func (w *World) runWith(reps int, produce func(i int) (*types.Block, *BlockObs))
 }
 
 // headMoved re-executes, after the whole chain is imported, every block on
-// node C whose head is now past the block's parent.
+// node C whose head is now past the block's parent (side-chain verification and
+// any later re-execution do exactly this; regression for fix ec9154c).
 func (w *World) headMoved(obs []*BlockObs) {
 	for i, blk := range w.blocks {
 		if i >= len(obs) || !obs[i].Imported || len(obs[i].ReexecDiff) > 0 {
